@@ -274,6 +274,9 @@ class Rx:
         if last.kind == 'group':
             inner = last.kids[0]
             return self._trailing(inner.kids if inner.kind == 'cat' else [inner])
+        if last.kind == 'rep' and last.a == 0 and last.b == 1:
+            inner = last.kids[0]
+            return self._trailing(inner.kids if inner.kind == 'cat' else [inner]) and self._trailing(items[:-1])
         return False
 
     # ---------------------------------------------------------------- group position facts (C06.C)
@@ -509,8 +512,8 @@ class Lang:
     def __init__(self, tree, alphabet, dotall=False):
         self.nfa = NFA(alphabet, dotall)
         s = self.nfa.new()
-        self.start = self.nfa.closure({s})
         self.final = self.nfa.build(tree, s)
+        self.start = self.nfa.closure({s})
         self.alphabet = list(alphabet)
 
     def accepts_state(self, states):
